@@ -2031,6 +2031,7 @@ class Tensor(object):
         self._cp_to_tt()
         start = time.time()
         self.orthogonalize(N - 1)  # Make everything left-orthogonal
+        self.factor_orthogonalize(N - 1)
         if verbose:
             print("Orthogonalization time:", time.time() - start)
         if self.batch:
